@@ -126,16 +126,28 @@ def _fam(spec):
     return fam
 
 
+def _slug(msg, words=7):
+    """exception message without echoes of the input: the stable part of a root-cause key"""
+    msg = re.sub(r"'[A-Z0-9]*'|\"[^\"]*\"|<[^>]*>|\d+", ' ', msg)
+    ws = re.findall(r'[A-Za-z_]+', msg)
+    return '_'.join(ws[:words]) or 'no_message'
+
+
+def _abbr(f):
+    f = str(f)
+    return f if len(f) <= 90 else f'{f[:45]}...({len(f)} characters)...{f[-20:]}'
+
+
 def _short(spec):
     """one-line description of a specification"""
-    fs = [str(v) for sh in spec['sheets'] for _, _, v in sh['cells'] if isinstance(v, str) and v.startswith('=')]
+    fs = [_abbr(v) for sh in spec['sheets'] for _, _, v in sh['cells'] if isinstance(v, str) and v.startswith('=')]
     if spec.get('focus'):
-        fs = [spec['focus']]
+        fs = [_abbr(spec['focus'])]
     t = [sh['title'] for sh in spec['sheets']]
-    s = f"titles={t!r} formulas={fs[:3]!r}"
+    s = f"titles={t[:3]!r} formulas={fs[:3]!r}"
     if spec.get('entry') is not None:
         s += f" entry={spec['entry']!r}"
-    return s[:260]
+    return s[:330]
 
 
 # ---------------------------------------------------------------------------------------------- workbooks
@@ -247,7 +259,8 @@ def _outcome(R, check, spec, st, replay, secs_note=''):
         return False
     if kind == 'raised':
         if not val.lib:
-            R.fail(check, f'C06.foreign.{val.cls}.{fam}', f'{_short(spec)} -> {val.cls}: {val.msg[:120]}; expected text or an '
+            cause = 'nest.' + fam.split('.')[1] if fam.startswith('nest.') else _slug(val.msg)
+            R.fail(check, f'C06.foreign.{val.cls}.{cause}', f'{_short(spec)} -> {val.cls}: {val.msg[:120]}; expected text or an '
                    'E2PyclException', replay)
         return False
     if not isinstance(val, str):
@@ -498,6 +511,34 @@ def _examine_in(R, spec, d, replay=None, light=False):
     return text, values
 
 
+_SHRUNK = set()
+
+
+def _shrink(spec, fails):
+    """minimal witness for a failure on a generator workbook: the constants plus ONE formula cell that still shows the key"""
+    formulas = [(si, c) for si, sh in enumerate(spec['sheets']) for c in sh['cells'] if isinstance(c[2], str) and c[2].startswith('=')]
+    out = []
+    for f in fails:
+        if f['key'] in _SHRUNK or len(formulas) < 2:
+            out.append(f)
+            continue
+        _SHRUNK.add(f['key'])
+        for si, cell in formulas:
+            pos = [si, cell[0] - 1, cell[1] - 1]
+            sub = dict(spec, shrunk=True, overrides=[], focus=cell[2],
+                       expect=[e for e in spec.get('expect', []) if e[:3] == pos],
+                       entries=[e for e in spec.get('entries') or [] if e['cell'] == pos],
+                       sheets=[{'title': sh['title'], 'cells': [c for c in sh['cells'] if c is cell or not (isinstance(c[2], str)
+                                                                                                             and c[2].startswith('='))]}
+                               for sh in spec['sheets']])
+            hit = [g for g in _examine(sub)['fails'] if g['key'].split('.')[:4] == f['key'].split('.')[:4]]
+            if hit:
+                f = dict(hit[0], key=f['key'])
+                break
+        out.append(f)
+    return out
+
+
 def _examine(spec):
     """worker: one workbook, whole-file or entry request as the specification says, plus per-formula entry requests"""
     R = Res()
@@ -520,6 +561,8 @@ def _examine(spec):
                         R.fail('entry_point', f'C06.entry.value.{_fam(spec)}', f'{_short(sub)} -> entry member evaluates to '
                                f'{v2[key]!r}, the whole-file translation to {values[key]!r}', {'kind': 'spec', 'spec': spec})
                     R.sample('entry_point', {'workbook': _short(sub), 'value': v2[key]})
+    if R.fails and spec.get('family') == 'generator' and not spec.get('shrunk'):
+        R.fails = _shrink(spec, R.fails)
     return R.dump()
 
 
@@ -1248,7 +1291,8 @@ def _tasks(tier, seed):
 def _normal_key(key):
     m = re.match(r'^(C06\.[a-z_]+(?:\.[A-Za-z_]+)*?)\.nest\.([a-z_]+)$', key)
     if m:
-        return m.group(1) + ('.nesting' if m.group(1).startswith('C06.hang') else '.long_formula'), m.group(2)
+        what = '.nesting' if m.group(1).startswith('C06.hang') else '.dependency_chain' if m.group(2) == 'reference_chain' else '.long_formula'
+        return m.group(1) + what, m.group(2)
     return key, None
 
 
@@ -1328,7 +1372,7 @@ def run(tier='quick', seed=0):
             if (chk, key) in also and len(also[(chk, key)]) > 1:
                 what += f' (families affected: {", ".join(sorted(also[(chk, key)]))})'
             fl.append({'key': key, 'what': what, 'replay': f['replay']})
-        checks.append({'name': f'C06.monitor.{c}', 'bound': bounds[c], 'rule': rules[c], 'exhaustive': False,
+        checks.append({'name': f'C06.monitor.{c}', 'bound': bounds[c], 'rule': rules[c], 'exhaustive': c == 'parser_reuse' and tier == 'thorough',
                        'evaluations': total.counts[c], 'distinct_nontrivial': total.nontrivial[c], 'failures': fl[:25],
                        'samples': total.samples[c][:3] + ([{'outcomes': total.outcomes}] if c == 'outcome' else []), 'seconds': secs})
     return {'checks': checks}
